@@ -88,14 +88,14 @@ def model_programs(tier):
         sizes["M"] = len(ps)
     except Exception:
         pass
-    for modname, tag in (("expr_model", "E"), ("decl_model", "D"), ("stmt_model", "S")):
-        try:
-            mod = __import__(f"models.{modname}", fromlist=["pool_programs"])
-            ps = list(mod.pool_programs(tier))
-            out += [(tag, p) for p in ps]
-            sizes[tag] = len(ps)
-        except Exception:
-            pass
+    try:
+        from models import pool_adapters
+
+        for tag, prog in pool_adapters.programs(tier):
+            out.append((tag, prog))
+            sizes[tag] = sizes.get(tag, 0) + 1
+    except ImportError:
+        pass
     return out, sizes
 
 
